@@ -4,7 +4,7 @@
 cd "$(dirname "$0")/.."
 ids="$@"; [ -z "$ids" ] && ids=$(for d in $(ls seeded); do grep -q '"obsolete"' seeded/$d/meta.json || echo $d; done)
 one() {
-  id=$1; prop=$(python3 -c "import json;print(json.load(open('seeded/$id/meta.json'))['breaks_property'])")
+  id=$1; prop=$(python3 -c "import json;m=json.load(open('seeded/$id/meta.json'));print(m.get('checked_by') or m['breaks_property'])")
   res=$(tools/mutation_run.sh seeded/$id/patch.diff "$prop" 2>&1 | grep -v conda | grep -E "^(CAUGHT|MISSED|ERROR|PATCH)" | head -1)
   python3 - "$id" "$res" <<'PY'
 import json, sys
